@@ -71,6 +71,13 @@ Proof. exact one_byte_len_ok. Qed.
 Theorem c12_one_byte_offset_refuted : exists name data, skipn (1 + length name) (custom_payload name data) <> data.
 Proof. exact naive_split_refuted. Qed.
 
+
+(* ================================================================== custom sections at byte level (Model/ModBytes.v): name, then the payload untouched *)
+From WV Require Import Model.ModBytes Proofs.ModBytes.
+Theorem c12_custom_section_bytes_round_trip :
+  forall (c : wcsec) (b : list N), enc_custom c = Some b -> wf_custom c = true -> dec_custom b = Some c.
+Proof. exact dec_enc_custom. Qed.
+
 Print Assumptions c12_roundtrip.
 Print Assumptions c12_gc.
 Print Assumptions c12_emit_keeps_module.
@@ -83,3 +90,4 @@ Print Assumptions c12_custom_name_and_data_recovered.
 Print Assumptions c12_custom_name_and_data_recovered_any_length_encoding.
 Print Assumptions c12_one_byte_offset_right_below_128.
 Print Assumptions c12_one_byte_offset_refuted.
+Print Assumptions c12_custom_section_bytes_round_trip.
